@@ -197,7 +197,7 @@ def _check_server(db, bid, expected, where) -> Optional[Tuple[str, str]]:
 def _check_ids(db, bid, cj, cg, declared_parents, where) -> Optional[Tuple[str, str]]:
     names = {a['job_id']: a['value'] for a in db.tables['job_attributes'] if a['batch_id'] == bid and a['key'] == 'name'}
     gnames = {a['job_group_id']: a['value'] for a in db.tables['job_group_attributes'] if a['batch_id'] == bid and a['key'] == 'name'}
-    by_name = {v: k for k, v in names.items()}
+    by_name = {v: k for k, v in names.items() if not v.startswith('same')}
     for name, j in cj.items():
         if by_name.get(name) != j.job_id:
             return ('client-ids-disagree', f'{where}: the client believes job {name!r} has id {j.job_id}, the server stored it as job {by_name.get(name)}')
@@ -219,6 +219,22 @@ def _check_ids(db, bid, cj, cg, declared_parents, where) -> Optional[Tuple[str, 
     return None
 
 
+def _check_repeats(db, bid, cj, reps, where) -> Optional[Tuple[str, str]]:
+    """every Job object the client created stands for its own job row: ids pairwise distinct, the row exists and carries the job's name"""
+    ids = [j.job_id for j in cj.values()] + [j.job_id for _, j in reps]
+    if len(set(ids)) != len(ids):
+        dup = sorted({i for i in ids if ids.count(i) > 1})
+        return ('two-client-jobs-share-one-id', f'{where}: the client holds several Job objects with the same id {dup}')
+    names = {a['job_id']: a['value'] for a in db.tables['job_attributes'] if a['batch_id'] == bid and a['key'] == 'name'}
+    rows = {j['job_id'] for j in db.tables['jobs'] if j['batch_id'] == bid}
+    for name, j in reps:
+        if j.job_id not in rows:
+            return ('client-job-was-never-created', f'{where}: the client believes job {name!r} has id {j.job_id}; no such job row exists')
+        if names.get(j.job_id) != name:
+            return ('client-ids-disagree', f'{where}: job id {j.job_id} is {names.get(j.job_id)!r} on the server, the client believes it is {name!r}')
+    return None
+
+
 async def _run(repo, case, tags: List[str]) -> Optional[Tuple[str, str]]:
     from ..minisql import batchapp
     t = [1700000000.0]
@@ -235,7 +251,14 @@ async def _run(repo, case, tags: List[str]) -> Optional[Tuple[str, str]]:
         declared = set()
         expected: List[Tuple[int, int]] = []
         glist: List[Any] = []
+        reps: List[Tuple[str, Any]] = []
         for si, sub in enumerate(case['subs']):
+            for i in range(sub.get('same', 0)):
+                # the same independent job is added again in a separate submit(): byte-identical spec lists in different updates
+                reps.append((f'same{i + 1}', b.create_job('ubuntu:22.04', ['true'], attributes={'name': f'same{i + 1}'})))
+            if sub.get('same'):
+                tags.append('identical-spec-list-submitted-again' if any(x.get('same') == sub['same'] for x in case['subs'][:si])
+                            else 'spec-list-that-will-be-repeated')
             for _ in range(sub['groups']):
                 name = f'g{len(cg) + 1}'
                 cg[name] = b.create_job_group(attributes={'name': name})
@@ -254,7 +277,7 @@ async def _run(repo, case, tags: List[str]) -> Optional[Tuple[str, str]]:
                 cj[name]._verif_group = gname
                 for p in pars:
                     declared.add((name, p))
-            expected.append((len(sub['jobs']), sub['groups']))
+            expected.append((len(sub['jobs']) + sub.get('same', 0), sub['groups']))
             if len(sub['jobs']) and sub['groups'] and len({sum(e[0] for e in expected[:-1]), sum(e[1] for e in expected[:-1])}) == 2:
                 tags.append('update-with-different-start-ids')
             kw2: Dict[str, Any] = {'disable_progress_bar': True}
@@ -275,7 +298,8 @@ async def _run(repo, case, tags: List[str]) -> Optional[Tuple[str, str]]:
             if session.failure:
                 return session.failure
             where = f'after submit #{si + 1}'
-            f = _check_server(db, b.id, expected, where) or _check_ids(db, b.id, cj, cg, declared, where)
+            f = _check_server(db, b.id, expected, where) or _check_ids(db, b.id, cj, cg, declared, where) or \
+                _check_repeats(db, b.id, cj, reps, where)
             if f:
                 return f
         return None
@@ -321,6 +345,14 @@ def gen_client_case(rng: random.Random) -> Dict[str, Any]:
             jobs.append([rng.randrange(6) if rng.random() < 0.5 else None, pars])
         n_jobs_so_far += n
         subs.append({'groups': groups, 'jobs': jobs, 'bunch': rng.choice([None, None, 1, 2, 3])})
+    if rng.random() < 0.3:
+        # the same independent job(s) submitted again in a later, separate submit(): identical spec lists in two updates after the first
+        m = rng.choice([1, 1, 2])
+        bunch = rng.choice([None, None, 1])
+        rep = {'groups': 0, 'jobs': [], 'same': m, 'bunch': bunch}
+        subs = subs[:2] if len(subs) > 1 else subs
+        pos = rng.randint(1, len(subs))
+        subs = subs[:pos] + [dict(rep)] + subs[pos:] + [dict(rep)]
     mode = rng.random()
     dup = [1] if mode < 0.4 else [rng.randint(0, 1) for _ in range(rng.randint(2, 7))]
     c = {'kind': 'client', 'subs': subs, 'dup': dup, 'ops': []}
